@@ -113,7 +113,7 @@ func If(c N, t []any, e []any) N {
 }
 func Print(args ...any) N { return ExprStmt(Call(Id("print"), args...)) }
 
-var strPool = []string{"", "a", "bc", "b", "abc", "é", "xyz"}
+var strPool = []string{"", "a", "bc", "b", "abc", "é", "xyz", "aéb", "éa"}
 
 // texpr generates an expression whose static type guess is `want`.
 func (g *Gen) texpr(d int, want string) N {
